@@ -222,6 +222,7 @@ package message
 
 //@ type Router
 //@   self r
+//@   setonce isRunning
 //@   monitor handlersLock guards handlers
 //@   monitor closedLock guards closed, closingInProgressCh(close), closedCh(close), #closeCompleted
 //@   ghostfield closeCompleted bool
